@@ -490,7 +490,7 @@ class Input(object):
         #     self.unlocking_script = script_add_locktime_csv(self.locktime_csv, self.unlocking_script)
         return True
 
-    def verify(self, transaction_hash):
+    def verify(self, transaction_hash, transaction_hashes=None):
         """
         Verify input with provided transaction hash, check if signatures matches public key.
 
@@ -498,6 +498,8 @@ class Input(object):
 
         :param transaction_hash: Double SHA256 Hash of Transaction signature
         :type transaction_hash: bytes
+        :param transaction_hashes: Optional dictionary with the transaction hash per signature hash type, for inputs with signatures of different hash types
+        :type transaction_hashes: dict
 
         :return bool: True if enough signatures provided and if all signatures are valid
         """
@@ -523,13 +525,13 @@ class Input(object):
                 return False
             key = self.keys[key_n]
             sig = self.signatures[sig_n]
-            if verify(transaction_hash, sig, key):
+            if verify((transaction_hashes or {}).get(sig.hash_type, transaction_hash), sig, key):
                 sigs_verified += 1
                 sig_n += 1
             elif sig_n > 0:
                 # try previous signature
                 prev_sig = deepcopy(self.signatures[sig_n - 1])
-                if verify(transaction_hash, prev_sig, key):
+                if verify((transaction_hashes or {}).get(prev_sig.hash_type, transaction_hash), prev_sig, key):
                     sigs_verified += 1
             key_n += 1
         self.valid = True
@@ -1692,7 +1694,12 @@ class Transaction(object):
             if not transaction_hash:
                 _logger.info("Need at least 1 key to create segwit transaction signature")
                 return False
-            self.verified = inp.verify(transaction_hash)
+            transaction_hashes = {inp.hash_type: transaction_hash}
+            for sig in inp.signatures:
+                if sig.hash_type not in transaction_hashes:
+                    transaction_hashes[sig.hash_type] = self.signature_hash(inp.index_n, sig.hash_type,
+                                                                            inp.witness_type)
+            self.verified = inp.verify(transaction_hash, transaction_hashes)
             if not self.verified:
                 return False
 
